@@ -3,7 +3,7 @@
 # on a scratch copy of /repo's working tree (so /repo is never written to).
 # Output: go test -json streams of every module on stdout; exit 0 iff all modules pass.
 set -u
-export GOFLAGS=-mod=mod GOPROXY=off GOSUMDB=off GOTOOLCHAIN=local
+export GOFLAGS="-mod=mod -trimpath" GOPROXY=off GOSUMDB=off GOTOOLCHAIN=local
 REPO=${VERIF_REPO:-/repo}
 S=$(mktemp -d /tmp/verif-baseline.XXXXXX)
 trap 'rm -rf "$S"' EXIT
